@@ -3,6 +3,8 @@ from .base import Prop, V, gen_knobs, gen_model, gen_task, submit_op, hang_viola
 from . import execfam as X
 
 TIMEOUTS = [None, None, 0.0, 0.01, 0.05, 1.0, 10.0]
+MANAGER_LOOP = ["is_shutting_down", "process_result_item", "weakref_cb", "run", "add_call_item_to_queue",
+                "wait_result_broken_or_wakeup", "flag_executor_shutting_down", "shutdown", "_python_exit"]
 
 
 def gen(rng, tier):
@@ -28,11 +30,11 @@ def gen(rng, tier):
             threads[th].append({"op": "wait_all"})
     if nthreads > 1:
         main.append({"op": "join_users"})
-    if rng.random() < 0.3:
+    end = rng.choice(["wait", "wait", "nowait", "nowait", "with", "del", "del", "none", "nowait+wait"])
+    if rng.random() < (0.7 if end == "del" else 0.3):
         main.append({"op": "wait_all"})
     if rng.random() < 0.3:
         main.append({"op": "sleep", "d": rng.choice([0.001, 0.05, 0.5, 3.0])})
-    end = rng.choice(["wait", "wait", "nowait", "nowait", "with", "del", "none", "nowait+wait"])
     if end == "wait":
         main.append({"op": "shutdown", "ex": "A", "wait": True})
     elif end == "nowait":
@@ -44,11 +46,19 @@ def gen(rng, tier):
         main.append({"op": "with", "ex": "A"})
     elif end == "del":
         main.append({"op": "del", "ex": "A"})
+        if rng.random() < 0.7:
+            main.append({"op": "wait_all", "which": "all"})
+            main.append({"op": "sleep", "d": 200.0})
+            main.append({"op": "probe_gc_shutdown", "n": 0})
     if end not in ("del", "none"):
         main.append({"op": "submit_expect_error", "ex": "A", "id": 9000})
     if rng.random() < 0.5:
         main.append({"op": "wait_all", "which": "all"})
-    return dict(family="shutdown", knobs=gen_knobs(rng, tier), model=gen_model(rng), threads=threads, faults=[],
+    kn = gen_knobs(rng, tier)
+    if rng.random() < 0.4:
+        # the shutdown protocol lives in the manager loop: concentrate line pre-emption there
+        kn["hot"] = {f: rng.choice([0.2, 0.5]) for f in rng.sample(MANAGER_LOOP, rng.randint(1, 2))}
+    return dict(family="shutdown", knobs=kn, model=gen_model(rng), threads=threads, faults=[],
                 hold_refs=rng.random() < 0.7, end=end)
 
 
@@ -80,6 +90,11 @@ class C05(Prop):
                     out.append(V(self.id, "C05/workers-alive-after-waited-shutdown", "workers %r alive when shutdown(wait=True) returned" % (r["workers_alive"],)))
                 if r.get("zombies"):
                     out.append(V(self.id, "C05/zombie-after-waited-shutdown", "workers %r not reaped" % (r["zombies"],)))
+            if e["op"] == "probe_gc_shutdown" and r.get("collected") and res.sched.knobs["J"] <= 1.0:
+                # the executor object is gone and 200 virtual seconds have passed with nothing pending
+                if r["mgr_alive"] or r["workers_alive"]:
+                    out.append(V(self.id, "C05/gc-shutdown-never-started", "executor collected, nothing pending, 200 s later: "
+                                 "manager alive=%r, workers alive=%r, shutdown flag=%r" % (r["mgr_alive"], r["workers_alive"], r["shutdown_flag"])))
             if e["op"] == "submit_expect_error" and not r.get("skipped"):
                 if r.get("accepted"):
                     out.append(V(self.id, "C05/submit-accepted-after-shutdown", "submit() after shutdown returned a future"))
